@@ -1347,3 +1347,106 @@ func (c *Ctx) r108() {
 	}
 	c.R.Floor(rule, "token-consuming loops", n, 5)
 }
+
+// R10.9: stripping delimiters needs both of them.
+func (c *Ctx) r109() {
+	const rule = "R10.9"
+	c.R.Rule(rule, "library packages: a slice v[a : len(v)-b] with constants a, b and a+b ≥ 2 (taking off the quotes, `url(`…`)`, `/*!`…`*/`) panics with `slice bounds out of range` when len(v) < a+b. A token that the lexer closed at the end of the input lacks its closing delimiter (CSS: `local('` is a function with the one-byte string `'`), so the kind of the token proves nothing about its length. Each such slice is dominated by length tests on v — or on the expression v was defined from — that establish len(v) ≥ a+b; exempt are the string literals of the JS parser, which reports an unterminated literal as an error instead of returning a token")
+	exempt := func(fname, v string) string {
+		if strings.HasPrefix(fname, "js.") && (strings.HasSuffix(v, "lit.Data") || strings.HasSuffix(v, "].Data")) {
+			return "JS string literal: the parser fails on an unterminated literal"
+		}
+		return ""
+	}
+	n, judged := 0, 0
+	for _, rel := range libPkgs {
+		pk := c.P.Pkg(rel)
+		if pk == nil {
+			continue
+		}
+		info := pk.TypesInfo
+		for _, fd := range load.FuncDecls(pk) {
+			if fd.Body == nil {
+				continue
+			}
+			var sites []*ast.SliceExpr
+			ast.Inspect(fd.Body, func(x ast.Node) bool {
+				e, ok := x.(*ast.SliceExpr)
+				if !ok || e.High == nil {
+					return true
+				}
+				hb, ok := ast.Unparen(e.High).(*ast.BinaryExpr)
+				if !ok || hb.Op != token.SUB {
+					return true
+				}
+				call, ok := ast.Unparen(hb.X).(*ast.CallExpr)
+				if !ok || str(call.Fun) != "len" || len(call.Args) != 1 || nospace(str(call.Args[0])) != nospace(str(e.X)) {
+					return true
+				}
+				if _, ok := intConst(info, hb.Y); !ok {
+					return true
+				}
+				sites = append(sites, e)
+				return true
+			})
+			if len(sites) == 0 {
+				continue
+			}
+			g := c.graph(pk, fd)
+			fname := pk.Name + "." + load.FuncName(fd)
+			seen := map[string]int{}
+			for _, e := range sites {
+				var a int64
+				if e.Low != nil {
+					k, ok := intConst(info, e.Low)
+					if !ok {
+						continue
+					}
+					a = k
+				}
+				b, _ := intConst(info, ast.Unparen(e.High).(*ast.BinaryExpr).Y)
+				need := a + b
+				if need < 2 {
+					continue
+				}
+				n++
+				v := nospace(str(e.X))
+				names := []string{v}
+				if id, ok := ast.Unparen(e.X).(*ast.Ident); ok {
+					if def := c.singleDef(pk, id); def != nil {
+						names = append(names, nospace(str(def)))
+					}
+				}
+				y := g.NodeOf(e)
+				var best int64 = -1
+				if y != nil {
+					for _, f := range g.DomFacts(y) {
+						if f.Test.Kind != flow.KCond {
+							continue
+						}
+						if fv, lb, ok := lenLowerBound(info, f.Test.Expr, f.Value); ok && lb > best {
+							for _, nm := range names {
+								if fv == nm {
+									best = lb
+								}
+							}
+						}
+					}
+				}
+				seen[v]++
+				construct := fmt.Sprintf("%s/%s#%d has both delimiters", fname, nospace(str(e)), seen[v])
+				if best < need {
+					if why := exempt(fname, v); why != "" {
+						c.R.OK(rule, construct, c.pos(e), why)
+						continue
+					}
+				}
+				judged++
+				c.R.Check(best >= need, rule, construct, c.pos(e), fmt.Sprintf("needs len ≥ %d, guards give len ≥ %d", need, best),
+					fmt.Sprintf("%s needs len(%s) ≥ %d, the dominating length tests establish %d: a token cut short by the end of the input (`local('`) makes the minifier panic", str(e), v, need, best))
+			}
+		}
+	}
+	c.R.Floor(rule, "delimiter-stripping slices", n, 12)
+	_ = judged
+}
